@@ -299,6 +299,7 @@ func c3Arg(op string) string {
 
 func genC03(g *G) {
 	genC03Lookups(g)
+	genC03Submit(g)
 	// exhaustive: every assignment of not-executed / executed / lookup-error to deliveries of 0..L proposals
 	L := g.Count(6, 8)
 	var rec func(prefix string)
